@@ -56,7 +56,7 @@ class Forest:
         return 'mz_tree id=%d z=%s' % (self.tid, ','.join(self.par))
 
 
-def msg(F, recv, snd, method, obj, auth=1, ident='ep', claim='-', ts='none', ac=1, ak=1, xz=None, var=None, xt=None, xcap=1, xh=1, rep='a'):
+def msg(F, recv, snd, method, obj, auth=1, ident='ep', claim='-', ts='none', ac=1, ak=1, xz=None, var=None, xt=None, xcap=1, xh=1, rep='a', zp=None, cz=None):
     """obj: int zone | 'nz' | ('k', zone).  Computes the model-facing oz= / ce= fields."""
     ce = 0
     if obj == 'nz':
@@ -86,6 +86,10 @@ def msg(F, recv, snd, method, obj, auth=1, ident='ep', claim='-', ts='none', ac=
         extra += ' xt=%s xcap=%d xh=%d' % (xt, xcap, xh)
     if rep != 'a':
         extra += ' rep=' + rep
+    if zp is not None:
+        extra += ' zp=' + str(zp)      # config::UpdateObject: the zone the message names (e none, x unknown name, <zone>)
+    if cz is not None:
+        extra += ' cz=' + str(cz)      # config::UpdateObject var=new: the zone the config text states (- none)
     return 'mz_msg t=%d recv=%d snd=%s auth=%d ident=%s claim=%s m=%s obj=%s oz=%s ce=%d ts=%s ac=%d ak=%d%s' % (
         F.tid, recv, snd, auth, ident, claim, method, tag, oz, ce, ts, ac, ak, extra)
 
@@ -109,9 +113,16 @@ def generate(seed, tier):
     senders = [('0a', 1, 'ep'), ('1a', 1, 'ep'), ('2b', 1, 'ep'), ('3a', 1, 'ep'), ('4a', 1, 'ep'), ('5a', 1, 'ep'), ('6a', 1, 'ep'),
                ('1a', 0, 'ep'), ('2b', 0, 'ep'), ('1a', 1, 'unk')]
     objs_all = [2, 1, 3, 4, 5, 6, 8, 'nz']
-
     def keep(method, p=1.0):
         return rnd.random() < min(1.0, EXPENSIVE.get(method, 1.0) * p * (scale if scale < 1 else 1.0))
+
+    # the sender presents the RECEIVER's own identity (2a is the receiver): authenticated = a peer of the own zone; unauthenticated = nobody
+    for m in METHODS:
+        for (auth, claim) in [(1, '-'), (1, '3'), (1, '1'), (1, 'x'), (0, '-')]:
+            for obj in (rnd.sample(objs_all, 3) if m in OBJ_METHODS else [2]):
+                if keep(m):
+                    msgs.append(('sender-is-self', F, msg(F, recv, '2a', m, obj, auth=auth, claim=claim,
+                                                          ts=rnd.choice(['none', 'none', 'new', 'old']))))
 
     for m in METHODS:
         for (snd, auth, ident) in senders:
@@ -149,6 +160,19 @@ def generate(seed, tier):
         msgs.append(('variants', F, msg(F, recv, snd, 'pki::UpdateCertificate', 2, auth=auth, ident=ident, var='other')))
         for xz in (2, 3, 1, 5):
             msgs.append(('variants', F, msg(F, recv, snd, 'event::ExecutedCommand', 2, auth=auth, ident=ident, xz=xz)))
+    # config::UpdateObject / DeleteObject: the zone the message names vs. the zone of the existing object / of the config text
+    for (snd, auth, ident) in senders + [('2a', 1, 'ep')]:
+        for zp in ['e', 'x', '2', '1', '3', '5', '6', '8']:
+            for obj in rnd.sample([2, 3, 1, 5, 8, 'nz'], 2):
+                if keep('config::UpdateObject', 0.8):
+                    msgs.append(('object-zone', F, msg(F, recv, snd, 'config::UpdateObject', obj, auth=auth, ident=ident, zp=zp,
+                                                       ac=0 if rnd.random() < 0.15 else 1)))
+            if keep('config::UpdateObject', 0.8):
+                msgs.append(('object-zone', F, msg(F, recv, snd, 'config::UpdateObject', 2, auth=auth, ident=ident, var='new', zp=zp,
+                                                   cz=rnd.choice(['-', '2', '3', '1', '5']), ac=0 if rnd.random() < 0.15 else 1)))
+        for obj in [2, 3, 1, 5]:
+            if keep('config::DeleteObject', 1.5):
+                msgs.append(('object-zone', F, msg(F, recv, snd, 'config::DeleteObject', obj, auth=auth, ident=ident, var='zoned')))
     # ExecuteCommand with an "endpoint" parameter (forwarding branch): receiver 2 has child 3 and grandchild 4.
     # sender relation x target endpoint (none, unknown, receiver itself, own-zone peer, child, grandchild, parent, sibling,
     # unrelated) x claimed originZone x checkable (missing / zone 2 / 3 / 4 / global / zone-less) x capability x accept_commands
